@@ -9,6 +9,7 @@ PROP = dict(
               'MemoryManager, executed in lock-step against std:: reference models, with per-operation allocation-failure injection, ASan/UBSan, '
               'Xalan header assertions enabled',
     level_text='Seeded sampling of operation histories (8..80 operations, arguments stored by value, interpreted modulo the current contents and '
+               'In a third of the histories of vector, deque, map, set and string the second container lives on a memory manager of its own (swap exchanges managers; every block must return to the manager it came from). '
                'clamped to the preconditions the headers assert) over 10 container kinds x 3 element types (int, XalanDOMString, a counting type that '
                'owns memory from the simulated manager) with small knobs (initial buckets, load factor, erase threshold, degenerate hash, block size, '
                'capacity). After EVERY operation all observables (size, empty, iteration forwards/backwards, every index, front/back, membership and '
